@@ -1,5 +1,7 @@
 #define _GNU_SOURCE
 #include <sched.h>
+#include <sys/syscall.h>
+#include <unistd.h>
 /* C01/C18 harness: load a topology from a scripted configuration and print the
  * canonical dump.  Script on stdin; several topologies per process:
  *   new / <config lines, see hwv_load.h> / load / dump [flags] / check / destroy / echo <text>
@@ -125,6 +127,14 @@ int main(void)
       else { char *p = line + 9; CPU_ZERO(&set); while (*p) { CPU_SET((int) strtol(p, &p, 10), &set); if (*p == ',') p++; } }
       rc = sched_setaffinity(0, sizeof(set), &set);
       printf("bindself rc=%d\n", rc);
+    } else if (!strncmp(line, "membindself ", 12)) {
+      /* membindself default | <node>[,<node>...] : memory policy of this thread (what RESTRICT_TO_MEMBINDING looks at);
+       * raw syscall, no libnuma: MPOL_DEFAULT = 0, MPOL_BIND = 2 */
+      unsigned long mask[4] = { 0, 0, 0, 0 }; long rc;
+      if (!strcmp(line + 12, "default")) rc = syscall(SYS_set_mempolicy, 0, NULL, 0);
+      else { char *p = line + 12; while (*p) { long n = strtol(p, &p, 10); if (n >= 0 && n < 256) mask[n / (8 * sizeof(long))] |= 1UL << (n % (8 * sizeof(long))); if (*p == ',') p++; }
+             rc = syscall(SYS_set_mempolicy, 2, mask, 8 * sizeof(mask) + 1); }
+      printf("membindself rc=%ld\n", rc);
     } else if (!strncmp(line, "echo ", 5)) {
       printf("%s\n", line);
     } else if (!strcmp(line, "load")) {
